@@ -182,7 +182,9 @@ func vhC04(a []int, twin bool) {
 		if e, isEnv := md.(*Envelope); isEnv {
 			for i := range e.envelope.Signatures {
 				if e.envelope.Signatures[i].KeyID == vhEdIDs[0] {
-					e.envelope.Signatures[i].Sig = "AAAA"
+					// decodable junk of several lengths (an entry that is not base64 at all makes the dsse
+					// package refuse the whole envelope - such an envelope is outside the claim, see DESIGN.md)
+					e.envelope.Signatures[i].Sig = vConcStr(vPick("damage", "AAAA", "AA==", ""))
 					damaged = true
 				}
 			}
@@ -190,7 +192,8 @@ func vhC04(a []int, twin bool) {
 			mb := md.(*Metablock)
 			for i := range mb.Signatures {
 				if mb.Signatures[i].KeyID == vhEdIDs[0] {
-					mb.Signatures[i].Sig = "00ff"
+					// decodable junk, a lost digit (odd length), text that is not hexadecimal, nothing
+					mb.Signatures[i].Sig = vConcStr(vPick("damage", "00ff", "0", "zz", ""))
 					damaged = true
 				}
 			}
